@@ -212,8 +212,26 @@ def run_query(base, case, q, idmap, variant=None, err_detail=False):
             rnd = random.Random(variant.get("perm", 0))
             if variant.get("dup") and out:
                 out.append(rnd.choice(out))
-            rnd.shuffle(out)
-        return out
+            if not variant.get("noperm"):
+                rnd.shuffle(out)
+        return shaped(out)
+
+    def shaped(lst):
+        """the same paths in another legitimate argument shape (one-shot iterators included)"""
+        shape = (variant or {}).get("shape", "list")
+        if shape == "gen":
+            return (x for x in lst)
+        if shape == "iter":
+            return iter(lst)
+        if shape == "tuple":
+            return tuple(lst)
+        if shape == "map":
+            return map(lambda x: x, lst)
+        if shape == "single" and len(lst) == 1:
+            return lst[0]
+        if shape == "none" and not lst:
+            return None
+        return lst
 
     deliv = []
     _STATE["opened"] = []
@@ -238,7 +256,7 @@ def run_query(base, case, q, idmap, variant=None, err_detail=False):
             for i in q["targets"]:
                 f = files[i]
                 targets.append(sp(f["dir"] + [basename(f)], how_t))
-            direct, trans = pydsdl.read_files(targets, args(q["roots"]), args(q["lookups"]), handler, allow_unregulated_fixed_port_id=True)
+            direct, trans = pydsdl.read_files(shaped(targets), args(q["roots"]), args(q["lookups"]), handler, allow_unregulated_fixed_port_id=True)
         ob = {"ok": {"direct": [obs_tree(t, idmap) for t in direct], "trans": [obs_tree(t, idmap) for t in trans],
                      "deliv": deliv, "opened": sorted(set(idmap.get(p, -1) for p in _STATE["opened"]))}}
     except RecursionError:
